@@ -201,6 +201,7 @@ def run(ctx):
                 dec_meta.append((tok, pk, kw))
             except wire.Unencodable:
                 pass
+    results_are_fresh(ctx, produced)
     model_encodes(ctx, enc_lines, enc_res, enc_meta)
     tampered_transport(ctx, produced)
     not_object(ctx, dec_lines, dec_meta)
@@ -220,6 +221,38 @@ def run(ctx):
         if mo != impl and not _nan_eq(mo, impl):
             ctx.disagreements.append({"suite": "jwt-decode", "request": ln[:200], "model": repr(mo)[:300], "impl": repr(impl)[:300]})
     numeric_date(ctx)
+
+
+def results_are_fresh(ctx, produced):
+    """History: what a decode returns belongs to the caller.  A token is decoded, the returned header and claims are edited
+    in place (members removed, foreign members added, nested lists extended), and the same token is decoded again - the
+    second result is what the first one was before the edits (no parsed header or claim set is shared between calls)."""
+    from joserfc import jwt
+    for transport, tok, pk, kw in produced[: 40 if ctx.tier == "quick" else 400]:
+        try:
+            t1 = jwt.decode(tok, pk, **kw)
+        except Exception as e:  # noqa: BLE001
+            ctx.report(f"decoding an encoded JWT a second time failed: {err_name(e)}", {"token": tok, "key": pk.as_dict()}, f"fresh:{transport}:failed")
+            continue
+        want = (copy.deepcopy(t1.header), copy.deepcopy(t1.claims))
+        t1.header.pop("typ", None)
+        t1.header["tenant"] = "acme"
+        t1.header["cty"] = "edited"
+        t1.claims["edited-by-the-caller"] = True
+        for v in list(t1.claims.values()) + list(t1.header.values()):
+            if isinstance(v, list):
+                v.append("edited")
+            elif isinstance(v, dict):
+                v["edited"] = 1
+        try:
+            t2 = jwt.decode(tok, pk, **kw)
+            got = (t2.header, t2.claims)
+        except Exception as e:  # noqa: BLE001
+            got = err_name(e)
+        ctx.count("decode-after-edit", tok[-60:], True, transport + ":" + ("same" if got == want or _nan_eq(got, want) else "differs"))
+        if got != want and not _nan_eq(got, want):
+            ctx.report("decoding a token again after the caller edited the first result returns something else",
+                       {"token": tok, "key": pk.as_dict(), "first": repr(want)[:600], "second": repr(got)[:600]}, f"fresh:{transport}:shared-result")
 
 
 def tampered_transport(ctx, produced):
